@@ -34,7 +34,7 @@ pub fn err_handler_style(idx: usize) -> u8 {
 /// Is constructor variant `v` of type `i` written as a static method of the type it builds?
 fn ctor_is_method(spec: &AppSpec, i: usize, v: u8) -> bool {
     let t = &spec.types[i];
-    (i + t.inputs.len()) % 3 == 1 && !in_own_module(t, v) && t.view_of.is_none() && !t.prebuilt
+    (i + t.inputs.len()) % 3 == 1 && !in_own_module(t, v) && t.view_of.is_none() && !t.prebuilt && !(t.imported && v == 0)
 }
 
 fn lifecycle_attr(l: Life) -> &'static str {
@@ -159,6 +159,10 @@ pub fn emit_module(k: usize, spec: &AppSpec) -> String {
             if in_module {
                 let _ = writeln!(s, "pub mod cs{i}_{v} {{\nuse super::*;");
             }
+            let import_module = t.imported && v == 0 && !in_module;
+            if import_module {
+                let _ = writeln!(s, "pub mod ci{i} {{\nuse super::*;");
+            }
             let fn_name = if in_module { "build".to_string() } else { format!("c{i}_{v}") };
             // a third of the plain constructors are static methods of the type they build (`#[pavex::methods]` impl block)
             let as_method = ctor_is_method(spec, i, v);
@@ -179,6 +183,9 @@ pub fn emit_module(k: usize, spec: &AppSpec) -> String {
                 let _ = writeln!(s, "    let out = {make};\n    crate::rt::exit(\"{cn}\", \"ok\");\n    out\n}}\n");
             }
             if in_module || as_method {
+                s.push_str("}\n\n");
+            }
+            if import_module {
                 s.push_str("}\n\n");
             }
         }
@@ -468,7 +475,13 @@ fn emit_regs(k: usize, spec: &AppSpec, regs: &[Reg], depth: usize, s: &mut Strin
                             let _ = write!(over, ".error_handler(M{k}_X{h})");
                         }
                     }
-                    let module = if in_own_module(t, *variant) { format!("cs{ty}_{variant}::") } else { String::new() };
+                    let module = if in_own_module(t, *variant) { format!("cs{ty}_{variant}::") } else if t.imported && *variant == 0 { format!("ci{ty}::") } else { String::new() };
+                    if t.imported && *variant == 0 && !in_own_module(t, *variant) {
+                        let _ = writeln!(s, "{ind}{bp}.import(pavex::blueprint::from![crate::m{k}::ci{ty}]);");
+                        if over.is_empty() {
+                            continue;
+                        }
+                    }
                     let _ = writeln!(s, "{ind}{bp}.constructor({module}M{k}_C{ty}_{variant}){over};");
                 }
             }
